@@ -522,7 +522,7 @@ class Body:
         return self._defs
 
     # -- value provenance expressions ---------------------------------------
-    def expr_of_local(self, l, depth=12, stack=()):
+    def expr_of_local(self, l, depth=20, stack=()):
         key = (l, depth)
         if key in self._expr_cache:
             return self._expr_cache[key]
@@ -561,7 +561,7 @@ class Body:
         self._expr_cache[key] = e
         return e
 
-    def expr_of_place(self, p, depth=12, stack=()):
+    def expr_of_place(self, p, depth=20, stack=()):
         e = self.expr_of_local(p["l"], depth, stack)
         for el in p["proj"]:
             if el == "deref":
@@ -580,7 +580,7 @@ class Body:
                 e = ("proj?", e)
         return e
 
-    def expr_of_op(self, o, depth=12, stack=()):
+    def expr_of_op(self, o, depth=20, stack=()):
         k = o["k"]
         if k in ("copy", "move"):
             return self.expr_of_place(o["place"], depth, stack)
